@@ -34,6 +34,8 @@ EXPLANATION = (
     'floor_sqrt are the textbook formulas (identities over the reals). Not decided: circular_overlap_core and '
     'overlap_area_triangle_unit_circle (the closed-form case analyses), floating-point error and the 1e-8 bound, finiteness, '
     'convergence of sub-sampling (its structural part is C02), the compiled kernels versus the .pyx analysed.')
+EXPLANATION_ADDED2 = (' (R7) the exact-mode hand-off reads the current parameters: nothing on the to_mask path of circle and ellipse is remembered across calls (shared memo analysis, see C01.R8).')
+EXPLANATION += EXPLANATION_ADDED2
 TRUSTED = ['the .so kernels were built from the .pyx analysed (C02.R0 compares the generated C)',
            'numpy/libc sqrt, asin, sin, cos', 'Quantity.to(u.rad).value is the angle in radians']
 ASSUMPTIONS = ['real arithmetic', 'the closed-form primitives circular_overlap_core and overlap_area_triangle_unit_circle are correct']
@@ -628,6 +630,23 @@ def r6(ctx):
                 + '; '.join(f'{show(Evaluator(m).conj(pc), 60)} -> {show(v, 60)}' for pc, v in out.returns), f.loc())
 
 
+def r7(ctx):
+    """the exact-mode hand-off (R1) uses the region's *current* parameters: neither to_mask nor a property/method of `self`
+    it reads remembers a result across calls unless every parameter writer drops it (c01.memoised_geometry)."""
+    from .c01 import memoised_geometry
+    m = ctx.model
+    for cname in ('CirclePixelRegion', 'EllipsePixelRegion'):
+        ci = m.cls(cname)
+        memo = memoised_geometry(m, ci, ('to_mask',), rule='C03.R7')
+        if memo:
+            name, why, f = memo[0]
+            ctx.bad(ci.name, f'memoised:{name}',
+                    f'{ci.name}.{name} {why}: after a parameter is assigned the exact-mode kernel is handed remembered '
+                    'values, and the mask is the overlap with an old shape', f.loc())
+        else:
+            ctx.ok(ci.name, 'to_mask and what it reads are recomputed on every call')
+
+
 RULES = [
     RuleDef('R1', 'exact-mode hand-off to the kernels (circle, ellipse)', r1, 2),
     RuleDef('R2', 'exact-mode pixel loop: pixel edges, sizes, division by the pixel area, frac[j, i]', r2, 2),
@@ -635,4 +654,5 @@ RULES = [
     RuleDef('R4', 'quadrant decomposition of the circle/rectangle overlap (25 order types)', r4, 1),
     RuleDef('R5', 'ellipse -> unit circle reprojection, triangle split, area scale', r5, 1),
     RuleDef('R6', 'geometric primitives: distance, triangle area, circular segment, floor_sqrt', r6, 5),
+    RuleDef('R7', 'exact-mode hand-off reads current parameters only (no remembered kernel arguments)', r7, 2),
 ]
